@@ -401,56 +401,67 @@ func runC02Spec(r *core.Run) {
 	s.Done()
 }
 
-// runC02Emphasis: delimiter-run documents (letters, blanks, '.', '*', '_' only) against an independent implementation of
-// §6.2 in its definitional form (c02emph.go). The meaning of such a document is fixed by the seventeen rules of the
-// section; the reference is validated on every official example of the section that stays inside this alphabet.
+// runC02Emphasis: inline-structure documents (letters, blanks, '.', '!', '*', '_', '[', ']', '`', '\', "(u)" behind a ']')
+// against an independent implementation of the specification's inline procedure in its definitional form (c02emph.go): code
+// spans, backslash escapes, emphasis, inline links and images with their precedence. The meaning of such a document is
+// fixed by the rules of §6.1–§6.4; the reference is validated on every official example of those sections that stays
+// inside its alphabet.
 func runC02Emphasis(r *core.Run) {
 	validated := 0
+	sections := map[string]bool{"Emphasis and strong emphasis": true, "Links": true, "Images": true, "Code spans": true, "Backslash escapes": true}
 	for _, e := range Spec(r) {
 		md := strings.TrimSuffix(e.Markdown, "\n")
-		if e.Section != "Emphasis and strong emphasis" || strings.Contains(md, "\n") || !emphPlain(md) || !emphParagraphSafe(md) {
+		if !sections[e.Section] || strings.Contains(md, "\n") || !emphPlain(md) || !emphParagraphSafe(md) {
 			continue
 		}
 		validated++
 		if want := "<p>" + emphRefHTML(md) + "</p>\n"; want != e.HTML {
-			fmt.Printf("C02: the emphasis reference disagrees with official example %d (%q): %q vs %q (the check is broken, no verdict)\n", e.Example, md, want, e.HTML)
+			fmt.Printf("C02: the inline reference disagrees with official example %d (%q): %q vs %q (the check is broken, no verdict)\n", e.Example, md, want, e.HTML)
 			os2Exit(r)
 		}
 	}
-	r.Assume = append(r.Assume, fmt.Sprintf("emphasis reference reproduces the %d official examples of the section that use only letters, blanks, '.', '*' and '_'", validated))
-	chars := []string{"*", "_", "a", " ", "."}
-	n := core.Pick(r, 9, 11)
+	r.Assume = append(r.Assume, fmt.Sprintf("inline reference (code spans, escapes, emphasis, inline links, images) reproduces the %d official examples of those sections that stay inside its alphabet", validated))
 	cfg := core.MustCfg(c02Cfg)
-	wordsSub(r, "emphasis-runs", fmt.Sprintf("as the content of an ATX heading and, where the line is a paragraph, alone: output must equal <h1>/<p> around the HTML an independent definitional implementation of CommonMark 6.2 prescribes (validated on %d official examples); words with a leading or trailing blank are skipped; distinct = output digest", validated),
-		chars, n, func(s *core.Sub, w int) func([]byte) uint64 {
-			cv := core.NewConv(cfg)
-			var doc []byte
-			return func(word []byte) uint64 {
-				if word[0] == ' ' || word[len(word)-1] == ' ' {
+	for _, a := range []struct {
+		name   string
+		toks   []string
+		nq, nt int
+	}{
+		{"emphasis-runs", []string{"*", "_", "a", " ", "."}, 9, 11},
+		{"inline-runs", []string{"*", "_", "[", "]", "(u)", "!", "`", "a", " ", "\\"}, 6, 7},
+		{"bracket-runs", []string{"*", "[", "]", "(u)", "![", "`", "a"}, 7, 9},
+	} {
+		wordsSub(r, a.name, fmt.Sprintf("as the content of an ATX heading and, where the line is a paragraph, alone: output must equal <h1>/<p> around the HTML an independent definitional implementation of CommonMark 6.1-6.4 (code spans, backslash escapes, emphasis, inline links, images) prescribes (validated on %d official examples); words with a leading or trailing blank are skipped; distinct = output digest", validated),
+			a.toks, core.Pick(r, a.nq, a.nt), func(s *core.Sub, w int) func([]byte) uint64 {
+				cv := core.NewConv(cfg)
+				var doc []byte
+				return func(word []byte) uint64 {
+					if word[0] == ' ' || word[len(word)-1] == ' ' {
+						return 0
+					}
+					ws := string(word)
+					ref := emphRefHTML(ws)
+					doc = append(append(doc[:0], "# "...), word...)
+					got, ok := mustConvert(s, cv, doc)
+					s.Evals.Add(1)
+					if ok && string(got) != "<h1>"+ref+"</h1>\n" {
+						s.Violate("differs-from-spec:"+a.name+":heading", cfg.String(), doc, nil, "inline structure differs from what CommonMark 6.1-6.4 prescribes", "<h1>"+ref+"</h1>\n", string(got))
+					}
+					h := core.Hash(got)
+					if emphParagraphSafe(ws) {
+						got, ok := mustConvert(s, cv, word)
+						s.Evals.Add(1)
+						if ok && string(got) != "<p>"+ref+"</p>\n" {
+							s.Violate("differs-from-spec:"+a.name+":paragraph", cfg.String(), word, nil, "inline structure differs from what CommonMark 6.1-6.4 prescribes", "<p>"+ref+"</p>\n", string(got))
+						}
+					}
+					if strings.Contains(ref, "<") {
+						return h
+					}
 					return 0
 				}
-				ws := string(word)
-				ref := emphRefHTML(ws)
-				doc = append(append(doc[:0], "# "...), word...)
-				got, ok := mustConvert(s, cv, doc)
-				s.Evals.Add(1)
-				if ok && string(got) != "<h1>"+ref+"</h1>\n" {
-					s.Violate("differs-from-spec:emphasis-runs:heading", cfg.String(), doc, nil, "delimiter runs are paired differently from what CommonMark 6.2 prescribes", "<h1>"+ref+"</h1>\n", string(got))
-				}
-				h := core.Hash(got)
-				if emphParagraphSafe(ws) {
-					got, ok := mustConvert(s, cv, word)
-					s.Evals.Add(1)
-					if ok && string(got) != "<p>"+ref+"</p>\n" {
-						s.Violate("differs-from-spec:emphasis-runs:paragraph", cfg.String(), word, nil, "delimiter runs are paired differently from what CommonMark 6.2 prescribes", "<p>"+ref+"</p>\n", string(got))
-					}
-				}
-				if strings.Contains(ref, "<") {
-					return h
-				}
-				return 0
-			}
-		})
+			})
+	}
 }
 
 func runC02(r *core.Run) {
